@@ -107,3 +107,40 @@ def replay(u, obs, prop, seed):
     with open(path, 'w') as f:
         f.write('\n'.join(lines) + '\n')
     return path, found
+
+
+def structural(u, reason, prop, seed):
+    """The weaver could not attach the loop specs (function renamed, loop count changed, unaccounted assignment): the contracts
+    decide nothing.  The native driver then evaluates the same contract on the real code; ONLY a concrete failing input
+    turns this into a violation (it is replayed on the real code by construction); otherwise the unit stays undecided."""
+    import re as _re
+    d = os.path.join(VERIF, 'replay', 'out')
+    os.makedirs(d, exist_ok=True)
+    path = os.path.join(d, '%s.%s.structural.replay.txt' % (prop, u['name']))
+    base = _re.sub(r'_(ovl|wu|wv|uv|wuv|ds|an|ad|safety|int)$', '', u['name'])
+    fn = u.get('replay') or {'mpz_inp_raw': 'raw', 'mpz_inp_raw_p': 'raw', 'mpz_inp_raw_m': 'raw', 'mpz_out_raw': 'raw', 'mpz_out_raw_m': 'raw'}.get(base, base)
+    lines = ['property: %s' % prop, 'unit: %s' % u['name'], 'source: %s' % u['source'],
+             'obligation: the loop structure of the function under contract changed, so its inductive invariants no longer attach:',
+             '  ' + reason, '']
+    found = False
+    tmp = tempfile.mkdtemp(prefix='mpir-replay.')
+    try:
+        exe, err = native_build(u, tmp)
+        if exe is None:
+            lines.append('native evaluation not possible: ' + err)
+        else:
+            cmd = [exe, fn, str(seed), str(u.get('replay_budget', 400000))]
+            try:
+                p = subprocess.run(cmd, capture_output=True, text=True, timeout=300)
+                out = p.stdout[-6000:]
+                rc = p.returncode
+            except subprocess.TimeoutExpired:
+                out, rc = 'TIMEOUT', 2
+            lines += ['native evaluation of the contract on the real code (gcc-built %s + /verif/replay/native.c):' % u['source'],
+                      'command: native %s %d %d' % (fn, seed, u.get('replay_budget', 400000)), out]
+            found = rc == 1 and 'FAIL' in out
+    finally:
+        shutil.rmtree(tmp, ignore_errors=True)
+    with open(path, 'w') as f:
+        f.write('\n'.join(lines) + '\n')
+    return path, found
